@@ -310,6 +310,7 @@ func (p *Packet) Flat() Flat {
 		f.Add("unsubs", List(p.Unsubs...))
 		flatProps(&f, "", TUnsubscribe, p.Props)
 	case TPingReq, TPingResp:
+		f.AddN("firstbyte", int64(p.Type<<4|p.Flags&0x0f))
 	case TDisconnect:
 		f.AddN("reason", int64(p.Reason))
 		flatProps(&f, "", TDisconnect, p.Props)
